@@ -847,6 +847,12 @@ class ICalendarFile(File):
     def validate(self) -> None:
         """Verify that file contents are valid."""
         cal = self.calendar
+        if cal.name != "VCALENDAR":
+            raise InvalidFileContents(
+                self.content_type,
+                self.content,
+                f"Expected a VCALENDAR object, got {cal.name}",
+            )
         # TODO(jelmer): return the list of errors to the caller
         if cal.errors:
             raise InvalidFileContents(
